@@ -28,6 +28,21 @@ func (b hexB) String() string               { return fmt.Sprintf("%x", []byte(b)
 func (b hexB) GoString() string             { return "hexB{...}" }
 func (b hexB) MarshalText() ([]byte, error) { return []byte("marshalled"), nil }
 
+// letterVerbs are all fmt verbs made of one ASCII letter, except %T, %p and %w which package fmt
+// answers itself without calling the value's Format method (%w outside Errorf is a bad verb).
+var letterVerbs = func() []string {
+	var out []string
+	for c := 'a'; c <= 'z'; c++ {
+		if c != 'p' && c != 'w' {
+			out = append(out, "%"+string(c))
+		}
+		if C := c - 32; C != 'T' {
+			out = append(out, "%"+string(C))
+		}
+	}
+	return out
+}()
+
 // errTypeHas reports whether some error in err's chain has a dynamic type whose name starts with prefix
 // (e.g. "*date.ParseError["): the typed-error check for instantiations the harness cannot name one by one.
 func errTypeHas(err error, prefix string) bool {
